@@ -175,6 +175,13 @@ var c17IPLines = c17HostileLines[len(c17HostileLines)-29:]
 
 // c17Mistakes are queries' stages (or selectors) with one mistake each.
 var c17Mistakes = []struct{ kind, stage, selector string }{
+	// constructs the engine does not implement: vector matching modifiers, with and without labels
+	{"unsupported: vector matching", "", "sum by (a) (count_over_time({}[5s])) / on () sum(count_over_time({}[5s]))"},
+	{"unsupported: vector matching", "", "sum by (a) (count_over_time({}[5s])) / ignoring () sum by (a) (count_over_time({}[5s]))"},
+	{"unsupported: vector matching", "", "sum by (a) (count_over_time({}[5s])) and on () sum(count_over_time({}[5s]))"},
+	{"unsupported: vector matching", "", "sum by (a) (count_over_time({}[5s])) > on (a) sum by (a) (count_over_time({}[5s]))"},
+	{"unsupported: vector matching", "", "sum by (a) (count_over_time({}[5s])) * on (a) group_left () sum by (a) (count_over_time({}[5s]))"},
+	{"unsupported: vector matching", "", "vector(1) + ignoring () vector(2)"},
 	// pattern: two captures with nothing between them (named or not), a name used twice (what the
 	// parts of such a pattern capture is ambiguous; a pattern without captures or a regexp stage
 	// without named groups is merely useless and not listed)
@@ -287,7 +294,11 @@ func c17Gen(t *rapid.T) C17Case {
 		if m.selector != "" {
 			q = m.selector
 		}
-		switch rapid.IntRange(0, 3).Draw(t, "mistake-wrap") {
+		wrap := rapid.IntRange(0, 3).Draw(t, "mistake-wrap")
+		if !strings.HasPrefix(q, "{") {
+			wrap = 3 // a metric query is taken as it is
+		}
+		switch wrap {
 		case 0:
 			q = "count_over_time(" + q + " [1m])"
 		case 1:
